@@ -14,7 +14,8 @@ POSIX record locks as Linux implements them:
 * ``EDEADLK`` when the owner-level wait-for graph would get a cycle (Linux's
   ``posix_locks_deadlock``; per-run switch).
 
-Descriptors are virtual numbers (lowest free >= 3 per process, so numbers get
+Descriptors are virtual numbers (lowest free >= first_fd per process - 3, or 0 for a process
+that runs with its standard descriptors closed -, so numbers get
 reused as in a real process).
 """
 
@@ -41,8 +42,9 @@ class _OpenFile:
 
 
 class SimOS:
-    def __init__(self, kernel, exists=None, edeadlk=True, faults=None, stats=None, create=None):
+    def __init__(self, kernel, exists=None, edeadlk=True, faults=None, stats=None, create=None, first_fd=3):
         self.k = kernel
+        self.first_fd = first_fd      # lowest descriptor a process may get (0: stdin/out/err closed, a daemon)
         self.exists = exists if exists is not None else _os.path.exists
         self.create = create
         self.edeadlk = edeadlk
@@ -98,7 +100,7 @@ class SimOS:
             self.create(path)
             self.k.log('creat', pid, _os.path.basename(path))
         table = self.fds.setdefault(pid, {})
-        fd = 3
+        fd = self.first_fd
         while fd in table:
             fd += 1
         table[fd] = _OpenFile(self.inode_of(path), flags, path)
